@@ -220,4 +220,11 @@ example : runOps 999 .xtc (List.range 7) St.init [.read 3, .tell, .seek 5, .read
     = [.frames [0,1,2], .num 3, .unit, .frames [5,6], .num 7, .unit, .frames [1,2,3,4,5,6], .num 7] := by
   decide
 
+/-- **why the cursor arithmetic is done in unbounded integers** (the model's `Nat`; repairs 61eaf4cc, 2e2dad3a): carried out in the narrow
+type of an argument such as `np.uint8(200)` or `np.int8(100)`, position 100 plus 200 frames is 44 and position 100 plus 100 frames is −56 —
+the positions the HDF5 and NetCDF readers reported -/
+theorem c18_narrow_integer_witness :
+    ((100 : UInt8) + 200).toNat = 44 ∧ ((100 : Int8) + 100).toInt = -56 ∧ (100 + 200 : Nat) = 300 := by
+  refine ⟨by decide, by decide, by decide⟩
+
 end MdVerif
